@@ -92,7 +92,7 @@ pub fn fnmatch_vs_libc(seed: u64, n: usize, st: &mut Stats) {
 /// every snapshot program of the repository (taken from real lipe_find3 output) must read as the
 /// two expected forms and run on a file in the runtime model without an unbound variable
 pub fn snapshots_read_and_run(st: &mut Stats) {
-    let Ok(rd) = std::fs::read_dir("/repo/src/snapshots") else { return };
+    let Ok(rd) = std::fs::read_dir(format!("{}/snapshots", crate::util::repo_src())) else { return };
     let mut n = 0;
     for e in rd.filter_map(|e| e.ok()) {
         let Ok(text) = std::fs::read_to_string(e.path()) else { continue };
